@@ -21,4 +21,14 @@ def main():
 
 
 if __name__ == "__main__":
-    sys.exit(main())
+    try:
+        code = main()
+    except SystemExit:
+        raise
+    except BaseException:
+        # a crash of the harness is never a verdict: exit 2, never 1
+        import traceback
+        traceback.print_exc()
+        print("HARNESS-ERROR uncaught exception in the check driver")
+        code = 2
+    sys.exit(code)
